@@ -9,6 +9,12 @@ CHECKS = {
         "technique": SMT + "; polynomial identities over the reference element",
         "design_ref": "DESIGN.md section 5 (C06)",
     },
+    "C07": {
+        "text": "Bounded symbolic check: every quadrature rule reachable through Gauss(elemType, nPg) is integrated against a general polynomial of the documented degree with SYMBOLIC coefficients, so exactness on the whole polynomial space is one solver query per rule (tolerance 1e-11); points-inside and weight sums are exact rational facts; all (element type, matrix type) pairs of the factory are enumerated. The consequences are checked on the real Integrate_e / length / area / volume / center executed on an element with symbolic affine geometry (and a general QUAD4), as polynomial identities in the map entries.",
+        "note": "Trusted: Sym arithmetic, z3/cvc5, the closed-form monomial integrals used as oracle; documented order is parsed from the docstrings at run time. Rank sufficiency of the stiffness rule is reported under C02. Floating-point round-off outside the claim.",
+        "technique": SMT + "; symbolic polynomial coefficients and symbolic affine geometry",
+        "design_ref": "DESIGN.md section 5 (C07)",
+    },
 }
 
 NOT_APPLICABLE = {
